@@ -168,3 +168,55 @@ func init() {
 		return nil
 	}
 }
+
+func (i *Interp) pkgVar(pkg, name string) value {
+	if p := i.prog.ImportedPackage(pkg); p != nil {
+		if g := p.Var(name); g != nil {
+			return *i.global(g)
+		}
+	}
+	fault("package variable %s.%s not found", pkg, name)
+	return nil
+}
+
+func init() {
+	intrinsics["(*bytes.Buffer).ReadString"] = func(i *Interp, _ *frame, _ *ssa.Function, a []value) value {
+		b := i.builder(a[0])
+		d := a[1].(*Term)
+		if !d.Const {
+			fault("bytes.Buffer.ReadString symbolic delimiter")
+		}
+		sep := TStr(string([]byte{byte(d.U)}))
+		if i.branch(StrContains(b.t, sep)) {
+			if b.t.Const {
+				k := strings.Index(b.t.S, sep.S)
+				line := b.t.S[:k+1]
+				b.t = TStr(b.t.S[k+1:])
+				return tuple{TStr(line), iface{}}
+			}
+			piece := i.fresh("$line", SStr, 0)
+			rest := i.fresh("$rest", SStr, 0)
+			i.pc = append(i.pc, Eq(b.t, StrConcat(StrConcat(piece, sep), rest)), Not(StrContains(piece, sep)))
+			b.t = rest
+			return tuple{StrConcat(piece, sep), iface{}}
+		}
+		line := b.t
+		b.t = TStr("")
+		return tuple{line, i.pkgVar("io", "EOF")}
+	}
+	intrinsics["io.Copy"] = func(i *Interp, caller *frame, _ *ssa.Function, a []value) value {
+		src := a[1].(iface)
+		if p, ok := src.v.(*value); ok && src.t != nil && src.t.String() == "*bytes.Buffer" {
+			b := i.builder(p)
+			t := b.t
+			b.t = TStr("")
+			if t.Const && t.S == "" {
+				return tuple{TBV(64, 0), iface{}}
+			}
+			r := i.writeTo(caller, a[0].(iface), t).(tuple)
+			return tuple{r[0], r[1]}
+		}
+		fault("io.Copy from %v", src.t)
+		return nil
+	}
+}
